@@ -68,7 +68,7 @@ def dot_break(text):
 
 LAYOUTS = ["one-line", "args-on-lines", "keyword-form", "keyword-form-lines", "condition-multiline", "comments", "trailing-comma-desc-kw",
            "no-description", "no-description-kw", "break-before-matmul", "break-before-matmul-tight", "break-before-dot",
-           "space-after-at", "parenthesised-decorator"]
+           "space-after-at", "parenthesised-decorator", "continuation-at-column-0"]
 NO_DESCRIPTION = ("no-description", "no-description-kw")
 
 
@@ -118,6 +118,9 @@ def make_layout(kind):
             tl = t.split("\n")
             return ["@icontract.%s(" % deco, "    lambda %s: %s" % (", ".join(params), tl[0])] + tl[1:-1] + [
                 tl[-1] + ",", "    %r%s)" % (desc, extra)]
+        if kind == "continuation-at-column-0":
+            # inside the parentheses a continuation line may start anywhere - also left of the decorator's own indentation
+            return ["@icontract.%s(lambda %s:" % (deco, ", ".join(params)), "<<%s," % text, "<<  %r%s)" % (desc, extra)]
         if kind == "space-after-at":
             return ["@ icontract.%s(%s, %r%s)" % (deco, lam, desc, extra)]  # blanks after the `@` are legal
         if kind == "parenthesised-decorator":
